@@ -206,8 +206,10 @@ def extension_rich(p, lid='X', ver='1', base=('L', '1'), tag='x', btag=''):
     return ext
 
 
-def lexicon_small(p, lid, ver='1', tag='', ili='i1', requires=None, language='en'):
-    """A two-synset lexicon (used where several lexicons are needed)."""
+def lexicon_small(p, lid, ver='1', tag='', ili='i1', requires=None, language='en', ili2='',
+                  two=False):
+    """A two-synset lexicon (used where several lexicons are needed).  two=True adds a second
+    entry whose sense is a further member of synset ss1."""
     t = tag
     lex = {'id': lid, 'version': ver, 'label': p(t + 'label', lid + ' label'), 'language': language,
            'email': 'e', 'license': 'l', 'meta': None,
@@ -219,7 +221,12 @@ def lexicon_small(p, lid, ver='1', tag='', ili='i1', requires=None, language='en
            'synsets': [{'id': t + 'ss1', 'ili': ili, 'partOfSpeech': 'n', 'meta': None,
                         'definitions': [{'text': p(t + 'def1', t + 'def1'), 'meta': None}],
                         'relations': [{'target': t + 'ss2', 'relType': 'hypernym', 'meta': None}]},
-                       {'id': t + 'ss2', 'ili': '', 'partOfSpeech': 'n', 'meta': None}]}
+                       {'id': t + 'ss2', 'ili': ili2, 'partOfSpeech': 'n', 'meta': None}]}
+    if two:
+        lex['entries'].append({'id': t + 'e2', 'meta': None,
+                               'lemma': {'writtenForm': p(t + 'w2', 'w2'), 'partOfSpeech': 'n'},
+                               'senses': [{'id': t + 's2', 'synset': t + 'ss1', 'meta': None},
+                                          {'id': t + 's3', 'synset': t + 'ss2', 'meta': None}]})
     if requires:
         lex['requires'] = [dict(r) for r in requires]
     return lex
@@ -397,7 +404,7 @@ def first_difference(a, b, path=''):
     return None if a == b else f'{path}: {a!r} != {b!r}'
 
 
-def extension_small(p, lid, ver='1', base=('B', '1'), tag='x', btag=''):
+def extension_small(p, lid, ver='1', base=('B', '1'), tag='x', btag='', second=True):
     """A small extension of lexicon_small(tag=btag): a new entry whose sense attaches to a
     base synset, a tag on the base lemma, a relation and an example on external entities."""
     t, b = tag, btag
@@ -415,7 +422,8 @@ def extension_small(p, lid, ver='1', base=('B', '1'), tag='x', btag=''):
                  'senses': [{'id': t + 's1', 'synset': b + 'ss1', 'meta': None}]}],
             'synsets': [
                 {'external': True, 'id': b + 'ss1'},
-                {'external': True, 'id': b + 'ss2',
+                {'external': True, 'id': b + ('ss2' if second else 'ss1'),
                  'relations': [{'target': t + 'ss1', 'relType': 'hyponym', 'meta': None}]},
                 {'id': t + 'ss1', 'ili': '', 'partOfSpeech': 'n', 'meta': None,
-                 'relations': [{'target': b + 'ss2', 'relType': 'hypernym', 'meta': None}]}]}
+                 'relations': [{'target': b + ('ss2' if second else 'ss1'), 'relType': 'hypernym',
+                                'meta': None}]}][(0 if second else 1):]}
